@@ -14,6 +14,7 @@ import (
 	"time"
 
 	"github.com/saucelabs/forwarder"
+	"github.com/saucelabs/forwarder/httplog"
 	"github.com/saucelabs/forwarder/verifharness/lib"
 	"github.com/saucelabs/forwarder/verifharness/wiring"
 )
@@ -98,6 +99,10 @@ func newWorld(c pcfg) *world {
 			if c.upstream {
 				cfg.UpstreamProxy = &url.URL{Scheme: "https", Host: w.up.Addr}
 			}
+			if c.cacheSize%2 == 0 {
+				// the larger cache configurations also log every exchange in body mode
+				cfg.LogHTTPMode = httplog.Body
+			}
 			m := forwarder.DefaultMITMConfig()
 			m.CACertFile = lib.DataURI(w.mitmCA.CertPEM)
 			m.CAKeyFile = lib.DataURI(w.mitmCA.KeyPEM)
@@ -143,6 +148,7 @@ type target struct {
 	host      string // host part without brackets
 	sni       string // "" = none sent
 	want      string // the name the certificate must be valid for
+	connOpt   string // extra CONNECT header lines
 }
 
 var hostPool = []string{"valid.test", "VALID.test", "Api.Valid.TEST", "a.test", "b.test", "c.test", "d.test", "e.test", "f.test", "g.test", "h.test", "10.11.12.13", "192.0.2.200", "[2001:db8::99]", "[::1]"}
@@ -151,6 +157,10 @@ func genTarget(r *lib.RNG) target {
 	h := lib.Pick(r, hostPool)
 	port := lib.Pick(r, []string{"443", "443", "8443", "1"})
 	t := target{authority: h + ":" + port, host: strings.Trim(h, "[]")}
+	if r.Chance(1, 4) {
+		// a Content-Length on CONNECT is documented as ignored
+		t.connOpt = lib.Pick(r, []string{"Content-Length: 0\r\n", "Content-Length: 7\r\n", "Content-Length: 300\r\n"})
+	}
 	isIP := net.ParseIP(t.host) != nil
 	switch {
 	case isIP:
@@ -180,7 +190,7 @@ func handshake(p *lib.Proxy, t target) (*hsResult, error) {
 	if err != nil {
 		return nil, err
 	}
-	fmt.Fprintf(st.C, "CONNECT %s HTTP/1.1\r\nHost: %s\r\n\r\n", t.authority, t.authority)
+	fmt.Fprintf(st.C, "CONNECT %s HTTP/1.1\r\nHost: %s\r\n%s\r\n", t.authority, t.authority, t.connOpt)
 	m, pst, rerr := st.ReadResponse("CONNECT", 10*time.Second)
 	if pst != lib.POK || m.Status != 200 {
 		st.Close()
